@@ -143,7 +143,10 @@ func makeWritable(root string) {
 func (s *Scratch) Remove() {
 	s.once.Do(func() {
 		if os.Getenv("VERIF_KEEP_SCRATCH") != "" {
-			fmt.Fprintln(os.Stderr, "keeping scratch", s.Dir)
+			kept := filepath.Join(filepath.Dir(s.Dir), "keep."+filepath.Base(s.Dir))
+			_ = os.RemoveAll(kept)
+			_ = os.Rename(s.Dir, kept)
+			fmt.Fprintln(os.Stderr, "keeping scratch", kept)
 			return
 		}
 		makeWritable(s.Dir)
